@@ -275,13 +275,28 @@ func genRepo(r *rng, tier string) []gObj {
 	if shape == 0 {
 		// git bomb: a chain of trees, each holding k copies of the previous level
 		objs = append(objs, gObj{kind: 'b', size: genBlobSize(r)})
+		// sometimes every level also holds the EMPTY tree, under a name that sorts after (or before) the copies:
+		// it is folded in when the level's counters may already be saturated (seeded change C05n incremented
+		// the directory count with a bare `++` on that path)
+		empty := -1
+		if r.coin(1, 2) {
+			objs = append(objs, gObj{kind: 't'})
+			empty = len(objs) - 1
+		}
 		objs = append(objs, gObj{kind: 't', entries: []gEntry{{0o100644, []byte("f"), 0}, {0o120000, []byte("l"), 0}, {0o160000, []byte("s"), -1}}})
 		depth := 3 + r.n(12)
 		k := 2 + r.n(9)
+		emptyName := []string{"zz-empty", "a-empty"}[r.n(2)]
 		for d := 0; d < depth; d++ {
 			var es []gEntry
+			if empty >= 0 && emptyName == "a-empty" {
+				es = append(es, gEntry{0o40000, []byte(emptyName), empty})
+			}
 			for j := 0; j < k; j++ {
 				es = append(es, gEntry{0o40000, []byte(fmt.Sprintf("d%d", j)), len(objs) - 1})
+			}
+			if empty >= 0 && emptyName == "zz-empty" {
+				es = append(es, gEntry{0o40000, []byte(emptyName), empty})
 			}
 			objs = append(objs, gObj{kind: 't', entries: es})
 		}
@@ -600,7 +615,13 @@ func init() {
 					return []string{"harness-error"}
 				}
 			}
-			g, h := runGraph(objs, splitOrNil(in[1], ","), sizes.NameStyleHash)
+			// one schedule in four runs with --names=none: no paths are requested at all, every witness is nil
+			// (a "nil means nothing recorded yet" shortcut then replaces maxima by the last value: seeded C03n)
+			style := sizes.NameStyleHash
+			if len(splitOrNil(in[1], ","))%4 == 1 {
+				style = sizes.NameStyleNone
+			}
+			g, h := runGraph(objs, splitOrNil(in[1], ","), style)
 			var gs []string
 			for sym, c := range h.ReferenceGroups {
 				gs = append(gs, hxs(string(sym))+"="+u(uint64(*c)))
